@@ -102,13 +102,17 @@ class Sim:
                 r = ('refused',) if 'not found in the cell map' in str(exc) else ('exc', 'AssertionError', [], str(exc)[-200:])
             except Exception as exc:
                 r = ('exc', type(exc).__name__, [], str(exc)[-200:])
-        elif op[0] == 'validate':
+        elif op[0] in ('validate', 'validate_raise'):
             # another entry point that builds the graph and evaluates: the report is not judged, the model must stay sound
+            # (validate_raise: raise_exceptions=True, the failure of the cell leaves validate_calcs as an exception)
             import contextlib
             import io
             try:
                 with contextlib.redirect_stdout(io.StringIO()):
-                    self.m.validate_calcs(output_addrs=[op[1]])
+                    if op[0] == 'validate':
+                        self.m.validate_calcs(output_addrs=[op[1]])
+                    else:
+                        self.m.validate_calcs(output_addrs=[op[1]], raise_exceptions=True)
                 r = ('validated',)
             except Exception as exc:
                 r = ('entry-raised', type(exc).__name__, [], str(exc)[-120:])
@@ -167,6 +171,8 @@ def judge(sim, op, res, fired, targets):
     aff = sim.affected(addr)
     if res[0] == 'exc':
         is_pycel = any(c in PYCEL_ERRORS for c in res[2])
+        if res[1] == 'RecursionError' and 'cycles=True' in res[3]:
+            is_pycel = True          # the documented way a RecursionError inside a formula is reported
         if aff and (sim.fault_active() or fired):
             if not is_pycel:
                 return 'bare-exception', (f'evaluate({addr}) raised {res[1]} (not one of pycel\'s own errors): {res[3][-120:]}')
@@ -196,7 +202,7 @@ def repair_ignored(sim, op, res, targets):
     if not (sim.repaired and op[0] == 'ev' and sim.affected(op[1])):
         return False
     if sim.kind == 'unknown' or sim.kind.startswith('always'):
-        return res[0] == 'exc' and any(c in PYCEL_ERRORS for c in res[2])
+        return res[0] == 'exc' and (any(c in PYCEL_ERRORS for c in res[2]) or (res[1] == 'RecursionError' and 'cycles=True' in res[3]))
     if res[0] != 'ok':
         return False
     exp = reference(sim.fam, sim.assign, False, sim.tcells, targets)[op[1]]
@@ -210,7 +216,7 @@ def repair_undone(sim, op, res, targets):
     return bool(sim.mode == 'plain' and sim.precedent_written_after_repair and repair_ignored(sim, op, res, targets))
 
 
-def histories(ops, depth, quick_patterns):
+def histories(ops, depth, quick_patterns, deep=True):
     yield from ((o,) for o in ops)
     if depth >= 2:
         yield from itertools.product(ops, repeat=2)
@@ -221,14 +227,19 @@ def histories(ops, depth, quick_patterns):
             yield from itertools.product(evs, mids, evs)
         else:
             yield from itertools.product(ops, repeat=3)
+        if quick_patterns and not deep:
+            return      # quick: the depth-4 patterns only for the four basic fault kinds
         # depth 4, patterns only: writes refuse cells that are not in the model yet, so a repair and a later write to
         # an input only take effect after a first evaluation
         evs = [o for o in ops if o[0] == 'ev']
         sets = [o for o in ops if o[0] == 'set']
+        first = evs[-2:] if quick_patterns else evs       # quick: first evaluation of the last cell / the range only
         if ('repair',) in ops:
-            first = evs[-2:] if quick_patterns else evs       # quick: first evaluation of the last cell / the range only
             yield from itertools.product(first, [('repair',)], sets, evs)
             yield from itertools.product(first, sets, [('repair',)], evs)
+        # a loaded model, a failure inside validate_calcs, a write to an input, a read
+        vals = [o for o in ops if o[0] == 'validate_raise'] if quick_patterns else [o for o in ops if o[0] in ('validate', 'validate_raise')]
+        yield from itertools.product(first, vals, sets, evs[-2:] if quick_patterns else evs)
 
 
 def run_history(fam, target, kind, mode, hist, targets, acc, base):
@@ -266,7 +277,7 @@ def work(job):
     if ':' not in target:
         # an array formula cannot be overwritten through set_value (members keep the range formula): no repair op
         ops.append(('repair',))
-    if kind in ('unknown', 'always'):
+    if kind in ('unknown', 'always', 'kth1', 'kth2'):
         # entry points other than evaluate() that build the graph and evaluate ranges on the way
         deps = W.spec_deps(fam['spec'])
         tc = [f'{W.split_addr(target)[0]}!{c}' for row in W.range_cells(W.split_addr(target)[1]) for c in row] if ':' in target else [target]
@@ -276,12 +287,13 @@ def work(job):
         outs = [c for c in fam['cells'] if c in desc and c in W.formula_cells(fam['spec'])]
         if outs:
             ops.append(('validate', outs[-1]))
-            if inputs:
+            ops.append(('validate_raise', outs[-1]))
+            if inputs and not kind.startswith('kth'):
                 ops.append(('trim', (inputs[0],), (outs[-1],)))
     base = dict(kind='fault', wb=fam['name'], fam={k: fam[k] for k in ('name', 'spec', 'ranges', 'unbounded', 'inputs', 'cells')},
                 target=target, fault=kind, mode=mode)
     n = 0
-    for hist in histories(ops, depth, quick_patterns):
+    for hist in histories(ops, depth, quick_patterns, deep=not kind.startswith('always-')):
         n += 1
         if run_history(fam, target, kind, mode, hist, targets, acc, base):
             acc.add('distinct_nontrivial')
@@ -304,11 +316,14 @@ def fault_targets(fam):
 def run(ctx):
     fams = family.curated()
     jobs = []
-    kinds = ['unknown', 'always', 'kth1', 'kth2', 'always-NameError', 'always-AssertionError', 'always-KeyError']
+    kinds = ['unknown', 'always', 'kth1', 'kth2', 'always-NameError', 'always-AssertionError', 'always-KeyError', 'always-RecursionError']
     modes = ['plain', 'iterative']
     for f in fams:
-        for t in fault_targets(f):
+        ts = fault_targets(f)
+        for t in ts:
             for kind in kinds:
+                if not ctx.thorough and kind.startswith('always-') and t not in (ts[0], ts[-1]):
+                    continue        # quick: the exception-class kinds at the first and the last fault placement only
                 for mode in modes:
                     jobs.append((f, t, kind, mode, 3, not ctx.thorough))
     k = ctx.seed % len(jobs)
